@@ -33,7 +33,8 @@ def canon(v):
     if isinstance(v, tuple): return "(" + ",".join(canon(x) for x in v) + ")"
     if isinstance(v, bytes): return "b" + v.hex()
     if isinstance(v, str): return json.dumps(v)
-    if isinstance(v, bool) or v is None: return repr(v)
+    if v is None: return "None"
+    if isinstance(v, bool): return repr(int(v))      # numbers (incl. bools) by value: the equality Flow.modified() and == use
     if isinstance(v, float) and v.is_integer(): return repr(int(v))
     if isinstance(v, (int, float)): return repr(v)
     _ALIEN.append(type(v).__name__)          # not a state value: a live object leaked into get_state()
@@ -205,7 +206,7 @@ def _spell_apply(name):
     def fn(f, a):
         v = vals[a]
         if kind == "req":
-            if attr == "host" and (f.request.data.authority or "Host" in f.request.headers): return   # host has side effects then
+            if attr in ("host", "port") and (f.request.data.authority or "Host" in f.request.headers): return   # side effects then
             setattr(f.request, attr, v)
         elif kind == "resp":
             if f.response: setattr(f.response, attr, v)
@@ -232,7 +233,7 @@ def _spell_typed(name, f, a, ival):
     kind, attr = target.split(":")
     v = stored(vals[a])
     if kind == "req":
-        if attr == "host" and (f.request.data.authority or "Host" in f.request.headers): return None
+        if attr in ("host", "port") and (f.request.data.authority or "Host" in f.request.headers): return None
         return "req atom %d %d" % (REQ_ATOM[attr], ival(v))
     if kind == "resp": return "resp atom %d %d" % (RESP_ATOM[attr], ival(v))
     if kind == "flow": return "atom %d %d" % (COMMON.index(attr), ival(v))
@@ -500,7 +501,11 @@ class Check(PropertyCheck):
                   "source's backup including the source's id, so reverting a copy gives it the source's id: modelled as "
                   "implemented (not part of the C40 statement).")
     technique = "Lean 4 proof (heap model, induction over operation histories) + differential model-vs-code correspondence"
-    rule = ("first, for every flow type, every container-valued component in its EMPTY-but-present form (trailers = Headers(), "
+    rule = ("scalar fields of requests, responses, flows, connections, WebSocket data, TCP/UDP messages and DNS messages set to "
+            "non-canonical but accepted spellings (case variants of http_version/method/scheme/host/authority/sni/question "
+            "names, str vs bytes, non-ASCII and surrogate-bearing strings, empty strings, bools given as ints and ints as "
+            "bools, boundary ints) followed by backup/revert/copy on the original and the copy; "
+            "for every flow type, every container-valued component in its EMPTY-but-present form (trailers = Headers(), "
             "headers = Headers(), empty message / WebSocket message / DNS question lists, empty metadata dict, empty "
             "alpn_offers / cipher_list / certificate_list, b'' vs None bodies) set before a backup or copy and followed by in-place "
             "edits of exactly that object on the original and on the copy; then structured: for every flow type every edit x arg as [backup, edit, revert], [backup, edit, edit-back], "
@@ -520,7 +525,9 @@ class Check(PropertyCheck):
                     "mitmproxy.http:Headers._kconv", "mitmproxy.flow:Flow.intercept", "mitmproxy.flow:Flow.resume",
                     "mitmproxy.http:MessageData.get_state", "mitmproxy.http:MessageData.set_state",
                     "mitmproxy.http:Message.get_state", "mitmproxy.http:Message.set_state", "mitmproxy.http:Message.copy",
-                    "mitmproxy.connection:Connection.get_state", "mitmproxy.connection:Connection.set_state"]
+                    "mitmproxy.connection:Connection.get_state", "mitmproxy.connection:Connection.set_state",
+                    "mitmproxy.http:Request.__init__", "mitmproxy.http:Response.__init__", "mitmproxy.http:Request.from_state",
+                    "mitmproxy.http:Response.from_state", "mitmproxy.http:Message.http_version"]
     trusted_base = ["component get_state()/from_state() of Request/Response/Message/Connection objects produce deep, "
                     "value-like states (observed, not proved)",
                     "canonical rendering of component states used to intern values (numbers compared by value)"]
